@@ -81,6 +81,23 @@ def streams(ctx):
             elif k < 0.32: f.insert(rng.randrange(len(f) + 1), rng.choice(sp))
             stream += f
         lines.append("Feed " + gc.fmt(stream))
+    # (b4) frames whose payload ends in a control byte and whose CRC-8 is a control byte (CR LF, BS, DEL, ESC, NUL ... in every pairing)
+    for name in gc.NAMES:
+        ps = gc.control_tail_payloads(rng)
+        for i in range(0, len(ps), 9):
+            lines.append("R %s %d" % (name, 16))
+            stream = []
+            for p in ps[i:i + 9]: stream += gc.frame(name, p)
+            lines.append("Feed " + gc.fmt(stream))
+    # (b5) frames around 2^15 and 2^16 stored bytes (a 16-bit copy of the fill level, a signed 16-bit length): payload + CRC of exactly
+    # 32768 / 65536 bytes and their neighbours into buffers that just hold them, each followed by two short frames
+    for i, (name, n) in enumerate([("v0", 65535), ("default", 65535), ("legacy", 65535), ("v0", 32767), ("default", 65536), ("v0", 65534)] +
+                                  ([("legacy", 32767), ("default", 32767), ("v0", 65536), ("default", 131071), ("v0", 131071)] if thorough else [])):
+        cap = n + rng.choice([2, 3, 5, 64])
+        sp = gc.special_bytes(name)
+        p = [rng.choice(sp) if rng.random() < 0.01 else rng.randrange(256) for _ in range(n)]
+        lines.append("R %s %d" % (name, cap))
+        lines.append("Feed " + gc.fmt(gc.frame(name, p) + gc.frame(name, [1, 2, 3]) + gc.frame(name, [4, 5])))
     # witnesses of the recorded legacy findings (always executed)
     lines += ["R legacy 8", "Feed 255,172", "R legacy 3", "Feed 173,0,255,172", "R legacy 8", "Feed 172,1,2,%d,172" % gc.crc8([1, 2])]
     # (c) pure noise
@@ -126,6 +143,8 @@ def replay(ctx, path):
             lines.append("R %s %d" % ("cx:" + ":".join(str(x) for x in e["cx"]) if e["name"] == "custom" else e["name"], e["cap"]))
         elif e["e"] == "Recv":
             feed.append(e["c"])
+        elif e["e"] == "RecvRun":
+            feed += e["cs"]
         elif e["e"] == "Encode":
             if feed: lines.append("Feed " + gc.fmt(feed)); feed = []
             lines.append("Enc %s %s" % (e["variant"], gc.fmt(e["p"])))
